@@ -78,6 +78,8 @@ type histState struct {
 	curScriptBad map[string]bool
 	harnessErr   string
 	optPool      map[string]*lint.FilterOptions // filter options built by mkopts ops, by their plan form
+	timersSet    bool
+	keptExamples []keptExample
 	hangDER      []byte // bytes and configuration text of the lint call in progress (for the hang report)
 	hangCfg      string
 	hasRegister  int // -1 unknown, 0 no, 1 the plan registers late probes
@@ -304,6 +306,19 @@ func (h *histState) setClock(t int64) {
 		h.clockReads = map[string]int{}
 	}
 	setSimClock(t, func(site string) { h.clockReads[site]++ })
+	if !h.timersSet {
+		h.timersSet = true
+		early, _ := h.p.Knobs["timers_early"].(bool)
+		if early {
+			h.ctr.inc("fault/timers_fire_early")
+		}
+		setSimTimers(true, early, func(site string) {
+			h.ctr.inc("timer_started/" + site)
+			if early {
+				h.ctr.inc("fault/timer_fired_early")
+			}
+		})
+	}
 }
 
 func (h *histState) cfgReal(c int) lint.Configuration {
@@ -517,7 +532,11 @@ func (h *histState) lintCall(i int, p *Parsed, reg lint.Registry, path string, p
 		}
 	}
 	if partial || cs.Panic != "" {
-		if cs.Panic != "" {
+		if cs.Panic != "" && p.Kind != KCert && scriptedPanicOfKind(p.Kind, sel) {
+			// a probe of the CRL / OCSP kind was scripted to panic in this call: no containment is promised on those
+			// paths, the stub's panic leaving the call is not the code's doing
+			h.ctr.inc("fault/crl_ocsp_probe_panic_left_the_call")
+		} else if cs.Panic != "" {
 			h.ctr.inc("panic_reached_caller")
 			h.violate(Violation{Property: "C01", Class: "panic_escaped", Op: i, Site: kindNames[p.Kind] + "/" + path,
 				Detail: fmt.Sprintf("a panic reached the caller of the %s lint path %q: %s", kindNames[p.Kind], path, clip(cs.Panic, 300))})
@@ -1325,6 +1344,23 @@ func (h *histState) doDefaultCfg(i int, op *Op) {
 		}
 	}
 	h.log.Add("op %d defaultcfg reg=%d -> %d bytes %s", i, op.Reg, len(b), shortHash(string(bytes.TrimSpace(b))))
+	// the caller keeps what it was given: the bytes of every earlier example must still be what they were
+	// (a buffer handed out and then reused for the next document would rewrite them behind the caller's back)
+	for _, k := range h.keptExamples {
+		h.checks++
+		if string(k.orig) != k.copy {
+			bad("example_bytes_changed_later", "", fmt.Sprintf("the example configuration returned by op %d was changed in place by the DefaultConfiguration call of op %d", k.op, i))
+		}
+	}
+	if len(h.keptExamples) < 8 {
+		h.keptExamples = append(h.keptExamples, keptExample{op: i, orig: b, copy: string(b)})
+	}
+}
+
+type keptExample struct {
+	op   int
+	orig []byte
+	copy string
 }
 
 // doFresh: the registered constructor hands out independent instances. For
@@ -1428,4 +1464,14 @@ func fieldByTOMLName(v reflect.Value, key string) reflect.Value {
 		}
 	}
 	return reflect.Value{}
+}
+
+// scriptedPanicOfKind: does the script of the op in progress make a selected probe of this kind panic?
+func scriptedPanicOfKind(kind int, sel map[string]bool) bool {
+	for n, a := range curScript {
+		if a.Panic != "" && sel[n] && probeByName[n] != nil && probeByName[n].Kind == kind {
+			return true
+		}
+	}
+	return false
 }
